@@ -14,5 +14,7 @@ CONSTANTS
   Ep = 1
   MaxRefresh = 1
   MaxChanges = 1
-INVARIANTS TypeOK AllFutureSubscribed AggregatorRuleExact InfoPrefersAggregator InfoInForceComplete EveryAggregatorCommitteeScheduled NoAggregationForPastSlot
+  MaxHeld = 0
+  SignerMayFail = TRUE
+INVARIANTS TypeOK AllFutureSubscribed AggregatorRuleExact SubscriptionHistoryIndependent InfoPrefersAggregator InfoInForceComplete EveryAggregatorCommitteeScheduled NoAggregationForPastSlot
 CHECK_DEADLOCK FALSE
